@@ -349,20 +349,79 @@ theorem heap_handle_detached (h h' : Heap) (op : HOp) (ret : Option Addr) (root 
     absH f h' root = absH f h root := hstep_abs_frame hi hok he hrl hap f
 
 /-- … and overwriting / removing a position DETACHES the node that was stored there, at any depth
-    of a tree-shaped document: when the walk of the path ends in the existing container `x`, after
-    `root.RemoveAt(path)` or `root.AddValueAt(path, v)` (for a one-component path: `Remove` / `AddValue`;
-    `AddContainer` / `AddList`: `v` = the new cell) the node `y` that `Lookup(path)` returned before
-    shares no container / list with the graph below `root` any more — so by `heap_handle_detached`
-    later writes through the old handle `y`, or through any handle below it, are invisible from `root`.
-    Proved for paths whose LAST component is a plain member name (the full statement also covers a
-    last component `l[i]`, i.e. handles sitting in list slots). -/
-theorem heap_overwrite_detaches_partial (h h' : Heap) (rank : Addr → Nat) (root x y : Addr) (segs : List String)
-    (last : String) (hr : h.RankedBy rank) (hm : h.MapsOk) (hs : SibSep h root)
-    (ha : ancestorH h root segs = some x) (hl : segs.getLast? = some last) (hplain : hasIdxSuffix last = false)
-    (hy : lookupSegsH h root segs = some y) :
-    (removeAtSegsH h root segs = some h' → Apart h' root y) ∧
-    (∀ v, Apart h v y → ¬ Reach h v x → addAtSegsH h root segs v = some h' → Apart h' root y) :=
-  pathwrite_detaches hr hm hs ha hl hplain hy
+    of a tree-shaped document, for EVERY path whose walk ends in an existing container `x` — the last
+    component may be a plain member name or a list position `l[i]…[k]` (a handle sitting in a list slot,
+    overwritten through a CONTAINER call): after `root.AddValueAt(path, v)` (for a one-component path:
+    `AddValue`; `AddContainer` / `AddList`: `v` = the new cell) the node `y` that `Lookup(path)` returned
+    before shares no container / list with the graph below `root` any more — so by
+    `heap_handle_detached` later writes through the old handle `y`, or through any handle below it, are
+    invisible from `root`.  The new node must share no container / list with `y` and reach no container /
+    list below `x` (this is `HOp.Ok` of the call, and follows from `Apart h root v`).
+    `root.RemoveAt(path)` detaches `y` when the last component is a plain name (`LastPlain`, the domain
+    of remove paths) — necessarily so: `heap_removeAt_index_no_detach_counterexample`.
+    Third clause: for a plain last component `¬ Reach h v x` alone suffices for the new node. -/
+theorem heap_overwrite_detaches (h h' : Heap) (rank : Addr → Nat) (root x y : Addr) (segs : List String)
+    (hr : h.RankedBy rank) (hm : h.MapsOk) (hs : SibSep h root)
+    (ha : ancestorH h root segs = some x) (hy : lookupSegsH h root segs = some y) :
+    (∀ v, Apart h v y → (∀ w, Reach h x w → Composite h w → ¬ Reach h v w) →
+      addAtSegsH h root segs v = some h' → Apart h' root y) ∧
+    (LastPlain segs → removeAtSegsH h root segs = some h' → Apart h' root y) ∧
+    (∀ v, LastPlain segs → Apart h v y → ¬ Reach h v x → addAtSegsH h root segs v = some h' → Apart h' root y) := by
+  obtain ⟨last, hl, _⟩ := ancestorH_spec 0 segs root x ha
+  exact ⟨fun v hvy hvx he => pathwrite_detaches_full hr hm hs ha hy hvy hvx he,
+    fun hp he => (pathwrite_detaches hr hm hs ha hl (hp last hl) hy).1 he,
+    fun v hp hvy hvx he => (pathwrite_detaches hr hm hs ha hl (hp last hl) hy).2 v hvy hvx he⟩
+
+/-- `idxHeap`: 0 nilLeaf · 1 {} · 2 [#1] · 3 = root {l: #2} -/
+def idxHeap : Heap := ⟨[.leaf Scalar.null, .cont [], .list [1], .cont [("l", 2)]]⟩
+
+/-- `LastPlain` cannot be dropped from the removal clause: `RemoveAt("l[0]")` is `delete(children, "l[0]")`
+    on the LITERAL key — there is no such key, nothing is written — so the container `Lookup("l[0]")`
+    returns stays attached to the document. -/
+theorem heap_removeAt_index_no_detach_counterexample :
+    Inv idxHeap ∧ SibSep idxHeap 3 ∧ ancestorH idxHeap 3 ["l[0]"] = some 3 ∧
+    lookupSegsH idxHeap 3 ["l[0]"] = some 1 ∧ removeAtSegsH idxHeap 3 ["l[0]"] = some idxHeap ∧
+    removeAtH idxHeap 3 "l[0]" = some idxHeap ∧ ¬ Apart idxHeap 3 1 := by
+  refine ⟨⟨closed_of_all (by decide), ⟨fun a => a, rankedBy_of_all (by decide)⟩, mapsOk_of_all (by decide +kernel), rfl⟩,
+    sibSep_of_sibSepB (by decide +kernel), by decide +kernel, by decide +kernel, by decide +kernel,
+    by decide +kernel, ?_⟩
+  intro hap
+  have h31 : Reach idxHeap 3 1 := mem_reachF _ 3 1 (show 1 ∈ Ytk.Heap.reach idxHeap 3 by decide)
+  exact hap 1 h31 (.refl _) ⟨.cont [], rfl, rfl⟩
+
+/-- `exD`: 0 nilLeaf · 1 leaf 1 · 2 {k: #1} · 3 [#2] · 4 {l: #3} · 5 = root {a: #4} · 6 leaf "v" -/
+def exD : Heap := ⟨[.leaf Scalar.null, .leaf ⟨"int", "1"⟩, .cont [("k", 1)], .list [2], .cont [("l", 3)],
+  .cont [("a", 4)], .leaf ⟨"string", "v"⟩]⟩
+
+/-- the list-position case is not vacuous: `root.AddValueAt("a.l[0]", #6)` overwrites slot 0 of the list
+    #3 (the ONLY cell whose content changes) and detaches the container #2 that sat in it -/
+theorem nonvacuous_heap_overwrite_detaches :
+    exD.RankedBy (fun a => a) ∧ exD.MapsOk ∧ SibSep exD 5 ∧ ancestorH exD 5 ["a", "l[0]"] = some 4 ∧
+    lookupSegsH exD 5 ["a", "l[0]"] = some 2 ∧ ¬ LastPlain ["a", "l[0]"] ∧ Apart exD 6 2 ∧
+    (∀ w, Reach exD 4 w → Composite exD w → ¬ Reach exD 6 w) ∧
+    ∃ h', addAtSegsH exD 5 ["a", "l[0]"] 6 = some h' ∧ Apart h' 5 2 ∧
+      ((List.range 7).filter fun a => h'.get? a != exD.get? a) = [3] := by
+  have hr : exD.RankedBy (fun a => a) := rankedBy_of_all (by decide)
+  have hm : exD.MapsOk := mapsOk_of_all (by decide +kernel)
+  have hs : SibSep exD 5 := sibSep_of_sibSepB (by decide +kernel)
+  have hv := leaf_value_ok (h := exD) (v := 6) (s := ⟨"string", "v"⟩) rfl 4
+  have hap : Apart exD 6 2 := apart_of_apartB (by decide +kernel)
+  refine ⟨hr, hm, hs, by decide +kernel, by decide +kernel, ?_, hap, hv.2.2.2, ?_⟩
+  · intro hp
+    have := hp "l[0]" rfl
+    revert this
+    decide +kernel
+  · cases he : addAtSegsH exD 5 ["a", "l[0]"] 6 with
+    | none =>
+      have : (addAtSegsH exD 5 ["a", "l[0]"] 6).isSome = true := by decide +kernel
+      rw [he] at this; cases this
+    | some h' =>
+      refine ⟨h', rfl, (heap_overwrite_detaches exD h' _ 5 4 2 _ hr hm hs (by decide +kernel) (by decide +kernel)).1
+        6 hap hv.2.2.2 he, ?_⟩
+      have : ((addAtSegsH exD 5 ["a", "l[0]"] 6).map fun h' =>
+          (List.range 7).filter fun a => h'.get? a != exD.get? a) = some [3] := by decide +kernel
+      rw [he] at this
+      exact Option.some.inj this
 
 /-- … the same for handles sitting in LIST SLOTS, when the slot is overwritten / the list cleared through
     the list (`ListBuilder.Set` / `MustSet` / `Clear` on a list `l` of the tree-shaped document): the
